@@ -19,13 +19,14 @@ RULE = (
     "0-3 times, inside % if / % for; rendered with buffer_filters on/off. distinct = by template text; "
     "non-trivial = the model recorded a call with content plus at least one of buffered/filtered/capture/concat."
 )
-RULE += " added since: depth-4 documents in the quick tier, second keyword-only parameter, out-of-order keyword arguments collected by **kw, try/finally nodes, literal+value mixtures joined by Python +, call bodies with keyword-only and ** body arguments. nested defs whose default reads a context variable mentioned nowhere else. a decorator whose wrapper adds a keyword argument; fixed scenarios on who sees `caller` (callee, defs called from it, from the call body, inside the call's argument list). nested defs named like a later top-level def."
+RULE += " added since: depth-4 documents in the quick tier, second keyword-only parameter, out-of-order keyword arguments collected by **kw, try/finally nodes, literal+value mixtures joined by Python +, call bodies with keyword-only and ** body arguments. nested defs whose default reads a context variable mentioned nowhere else. a decorator whose wrapper adds a keyword argument; fixed scenarios on who sees `caller` (callee, defs called from it, from the call body, inside the call's argument list). nested defs named like a later top-level def. a third of the documents also rendered through render() with output_encoding."
 ASSUMPTIONS = [
     "reference interpreter mk/tdoc.py (rules listed in DESIGN.md appendix A)",
     "capture() of a buffered def and decorators on buffered defs are not generated (not covered by the statement)",
 ]
 MIN_NONTRIVIAL = 300
 REQUIRED_COUNTERS = ["renders_compared", "frames_checked", "ccall_docs", "caller_body_docs", "argument_errors_matched"]
+REQUIRED_COUNTERS += ["renders_with_output_encoding"]
 
 _st = {}
 
@@ -291,6 +292,17 @@ def run_doc(doc, res, rc, bf):
     ok = got[0] == exp[0] and (got[1] == exp[1] if got[0] == "out" else type(got[1]).__name__ == type(exp[1]).__name__)
     if exp[0] == "exc" and ok:
         res.count("argument_errors_matched")
+    if ok and exp[0] == "out" and len(text) % 3 == 0:
+        # the same document with an output encoding: buffered / filtered / captured pieces are still text while they
+        # are put together, only the final result is encoded
+        try:
+            gotb = T(text, output_encoding="utf-8", **kw).render(**CTX)
+        except Exception as e:
+            gotb = "%s: %s" % (type(e).__name__, e)
+        res.count("renders_with_output_encoding")
+        if gotb != exp[1].encode("utf-8"):
+            res.violate("def-semantics-encoded", "template\n%s\nwith output_encoding='utf-8' render() gave %r\nexpected the bytes of %r" % (
+                text[len(tdoc.MODULE_BLOCK):], gotb if not isinstance(gotb, bytes) else gotb[:300], exp[1][:300]), replay_case=rc)
     if not ok:
         fid = None
         if any_bare_star(doc):
